@@ -222,7 +222,7 @@ partial def chainLoop (stdin : IO.FS.Stream) (s : State) (seen : List Str) : IO 
   else if l == "genesis" then
     IO.println ("> " ++ l)
     -- export, import into empty module stores at the current height, export again
-    match importG s (exportG s) with
+    match importG s (jsonG (exportG s)) with
     | none =>
       IO.println "< panic"
       chainLoop stdin s seen
@@ -281,6 +281,7 @@ def pureStep (c : Cache) (l : String) : Cache × String :=
   | "hash" => (c, "ok " ++ String.ofList (hashOf sha (strTok (g 1)) (parseVD (g 2))))
   | "fhash" => (c, "ok " ++ String.ofList (hashOf sha (strTok (g 1)) (parseVD (g 2))))
   | "trim" => (c, "ok " ++ encStr (trimHexZeroes (strTok (g 1))))
+  | "utf8" => (c, "ok " ++ (if validUtf8 (strTok (g 1)) then "true" else "false") ++ " " ++ encStr (jsonStr (strTok (g 1))))
   | "ownerof" =>
     let r := ownerOfCall (strTok (g 1)) (strTok (g 2))
     (c, "ok to=" ++ encStr r.1 ++ " data=" ++ encStr r.2)
